@@ -1705,19 +1705,38 @@ breaker('C05', 'bs-begin-reads-metadata-first', 'C05.R1', BSPY,
 ''')
 breaker('C08', 'copyrest-stale-end-position', 'C08.R6', PACKPY,
         'FileStoragePacker.copyRest',
-        '''        try:
+        '''        while ipos < self._storage.getSize():
+            ipos = self.copyOne(ipos)''', '''        while ipos < self.file_end:
+            ipos = self.copyOne(ipos)''')
+breaker('C08', 'copyrest-until-read-fails', 'C08.R10', PACKPY,
+        'FileStoragePacker.copyRest',
+        '''        while ipos < self._storage.getSize():
+            ipos = self.copyOne(ipos)''', '''        try:
             while 1:
                 ipos = self.copyOne(ipos)
         except CorruptedDataError as err:
-            # The last call to copyOne() will raise
-            # CorruptedDataError, because it will attempt to read past
-            # the end of the file.  Double-check that the exception
-            # occurred for this reason.
             self._file.seek(0, 2)
             endpos = self._file.tell()
             if endpos != err.pos:
-                raise''', '''        while ipos < self.file_end:
+                raise''')
+breaker('C08', 'pack-end-from-file', 'C08.R10', PACKPY,
+        'FileStoragePacker.pack',
+        '''                self.file_end = self._storage.getSize()''',
+        '''                self._file.seek(0, 2)
+                self.file_end = self._file.tell()''')
+twin('C08', 'copyrest-bound-in-local', PACKPY, 'FileStoragePacker.copyRest',
+     '''        while ipos < self._storage.getSize():
+            ipos = self.copyOne(ipos)''', '''        while True:
+            if not ipos < self._storage.getSize():
+                break
             ipos = self.copyOne(ipos)''')
+breaker('C16', 'ds-loadbefore-ignores-pack-mark', 'C16.R14', DSPY,
+        'DemoStorage.loadBefore',
+        '''            if tid <= self._packed_to:
+                # ... or there were, and a pack of the changes has removed
+                # them: the base's revision would be the wrong answer.
+                return None
+''', '''''')
 breaker('C08', 'swap-pool-emptied-in-own-section', 'C08.R7', FSPY,
         'FileStorage.pack',
         '''            with self._files.write_lock():
